@@ -2,11 +2,22 @@
    runFSM / testConstraint / doAction, src/inc/opcodes.h for the action opcodes), over a glyph stream as a list.
    A rule has a pattern of glyph sets with [pre] items of pre-context, actions per item from the pre-context on, and leaves the
    cursor after its window.  Precedence: longest pattern (sort key) first, then earliest rule.  No proofs here. *)
-From GR Require Import Base.Bytes.
+From GR Require Import Base.Bytes Model.PosModel.
 From Coq Require Import NArith ZArith Bool.
 Local Open Scope N_scope.
 
-Record slot := mkslot { s_gid : N; s_adv : Z; s_shx : Z }.
+(* a slot: glyph, advance.x, shift; and for positioning passes the attachment: parent and children as stream indices (the
+   stream has a fixed length there: positioning passes may neither insert nor delete), attach point and with point *)
+Record slot := mkslot0 { s_gid : N; s_adv : Z; s_shx : Z; s_shy : Z; s_par : option nat; s_kids : list nat; s_atx : Z; s_aty : Z; s_wx : Z; s_wy : Z }.
+Definition mkslot (g : N) (a sx : Z) : slot := mkslot0 g a sx 0 None [] 0 0 0 0.
+Definition set_gid_adv (s : slot) (g : N) (a : Z) : slot := mkslot0 g a (s_shx s) (s_shy s) (s_par s) (s_kids s) (s_atx s) (s_aty s) (s_wx s) (s_wy s).
+Definition set_adv (s : slot) (a : Z) : slot := set_gid_adv s (s_gid s) a.
+Definition set_shx (s : slot) (v : Z) : slot := mkslot0 (s_gid s) (s_adv s) v (s_shy s) (s_par s) (s_kids s) (s_atx s) (s_aty s) (s_wx s) (s_wy s).
+Definition set_shy (s : slot) (v : Z) : slot := mkslot0 (s_gid s) (s_adv s) (s_shx s) v (s_par s) (s_kids s) (s_atx s) (s_aty s) (s_wx s) (s_wy s).
+Definition set_att (s : slot) (x y : Z) : slot := mkslot0 (s_gid s) (s_adv s) (s_shx s) (s_shy s) (s_par s) (s_kids s) x y (s_wx s) (s_wy s).
+Definition set_with (s : slot) (x y : Z) : slot := mkslot0 (s_gid s) (s_adv s) (s_shx s) (s_shy s) (s_par s) (s_kids s) (s_atx s) (s_aty s) x y.
+Definition set_par (s : slot) (p : option nat) : slot := mkslot0 (s_gid s) (s_adv s) (s_shx s) (s_shy s) p (s_kids s) (s_atx s) (s_aty s) (s_wx s) (s_wy s).
+Definition set_kids (s : slot) (k : list nat) : slot := mkslot0 (s_gid s) (s_adv s) (s_shx s) (s_shy s) (s_par s) k (s_atx s) (s_aty s) (s_wx s) (s_wy s).
 
 Inductive act :=
 | APutGlyph (g : N)                                   (* put_glyph: the glyph becomes g, the advance that of g *)
@@ -14,7 +25,11 @@ Inductive act :=
 | ADelete                                             (* delete this item *)
 | AInsert (g : N)                                     (* insert a slot with glyph g before this item *)
 | ASetAdv (v : Z)                                     (* attr_set advance.x *)
-| ASetShift (v : Z).                                  (* attr_set shift.x *)
+| ASetShift (v : Z)                                   (* attr_set shift.x *)
+| ASetShiftY (v : Z)                                  (* attr_set shift.y *)
+| AAttach (ref : Z)                                   (* attr_set_slot att_to: attach this item to item (this + ref) — positioning passes *)
+| AAttPt (x y : Z)                                    (* attr_set att_x / att_y *)
+| AWithPt (x y : Z).                                  (* attr_set with_x / with_y *)
 
 (* an optional rule constraint: the advance of window item [c_item] compared with a constant (cntxt_item + push_slot_attr) *)
 Inductive cmp := CLt | CGt | CEq.
@@ -69,7 +84,7 @@ Section Pass.
     | [] => (ins, cur, deleted)
     | a :: rest =>
         match a with
-        | APutGlyph g => apply_acts orig j rest (mkslot g (adv g) (s_shx cur)) ins deleted
+        | APutGlyph g => apply_acts orig j rest (set_gid_adv cur g (adv g)) ins deleted
         | APutSubs ref incls outcls =>
             let k := (Z.of_nat j + ref)%Z in
             let src := if (k <? 0)%Z then None else nth_error orig (Z.to_nat k) in
@@ -77,12 +92,16 @@ Section Pass.
             | None => apply_acts orig j rest cur ins deleted                       (* slotat() yields no slot: nothing happens *)
             | Some s =>
                 let g := match index_of (s_gid s) incls 0 with Some ix => nth ix outcls 0 | None => 0 end in
-                apply_acts orig j rest (mkslot g (adv g) (s_shx cur)) ins deleted
+                apply_acts orig j rest (set_gid_adv cur g (adv g)) ins deleted
             end
         | ADelete => apply_acts orig j rest cur ins true
         | AInsert g => apply_acts orig j rest cur (ins ++ [mkslot g (adv g) 0]) deleted
-        | ASetAdv v => apply_acts orig j rest (mkslot (s_gid cur) v (s_shx cur)) ins deleted
-        | ASetShift v => apply_acts orig j rest (mkslot (s_gid cur) (s_adv cur) v) ins deleted
+        | ASetAdv v => apply_acts orig j rest (set_adv cur v) ins deleted
+        | ASetShift v => apply_acts orig j rest (set_shx cur v) ins deleted
+        | ASetShiftY v => apply_acts orig j rest (set_shy cur v) ins deleted
+        | AAttPt x y => apply_acts orig j rest (set_att cur x y) ins deleted
+        | AWithPt x y => apply_acts orig j rest (set_with cur x y) ins deleted
+        | AAttach _ => apply_acts orig j rest cur ins deleted                       (* attachment is the business of positioning passes: see fire_pos *)
         end
     end.
 
@@ -104,27 +123,128 @@ Section Pass.
     let body := apply_items window (r_pre r) (skipn (r_pre r) window) (r_acts r) in
     (firstn st l ++ pre ++ body ++ skipn (st + r_sort r) l, (st + r_pre r + length body)%nat).
 
+  (* ---- positioning passes: the stream keeps its length; actions update slots in place and may attach them *)
+  Fixpoint upd (l : list slot) (k : nat) (f : slot -> slot) : list slot :=
+    match l, k with
+    | [], _ => []
+    | s :: r, O => f s :: r
+    | s :: r, S k' => s :: upd r k' f
+    end.
+  Fixpoint chain_up (fuel : nat) (l : list slot) (k : nat) : list nat :=          (* k, parent k, ... *)
+    match fuel with
+    | O => []
+    | S f => k :: match nth_error l k with Some s => match s_par s with Some p => chain_up f l p | None => [] end | None => [] end
+    end.
+  Fixpoint first_child_depth (fuel : nat) (l : list slot) (k : nat) : nat :=
+    match fuel with
+    | O => O
+    | S f => match nth_error l k with Some s => match s_kids s with c :: _ => S (first_child_depth f l c) | [] => O end | None => O end
+    end.
+  Fixpoint memn (x : nat) (l : list nat) : bool := match l with [] => false | y :: r => Nat.eqb x y || memn x r end.
+  Fixpoint removen (x : nat) (l : list nat) : list nat := match l with [] => [] | y :: r => if Nat.eqb x y then r else y :: removen x r end.
+
+  (* Slot::setAttr(gr_slatAttTo): attach slot c to slot t *)
+  Definition attach (l : list slot) (c t : nat) : list slot :=
+    match nth_error l c, nth_error l t with
+    | Some sc, Some st_ =>
+        if Nat.eqb c t || match s_par sc with Some p => Nat.eqb p t | None => false end then l
+        else
+          let l1 := match s_par sc with
+                    | Some p => upd (upd l p (fun s => set_kids s (removen c (s_kids s)))) c (fun s => set_par s None)
+                    | None => l end in
+          let up := chain_up 200 l1 t in
+          let count := (length up + first_child_depth 200 l1 c)%nat in
+          if Nat.ltb count 100 && negb (memn c up) then
+            let l2 := upd l1 t (fun s => set_kids s (s_kids s ++ [c])) in
+            upd l2 c (fun s => let s1 := set_par s (Some t) in
+                               if Nat.ltb c t then set_with s1 (s_adv s) 0                   (* idx > subindex: the target follows *)
+                               else set_att s1 (match nth_error l1 t with Some ts => s_adv ts | None => 0%Z end) 0)
+          else l1
+    | _, _ => l
+    end.
+
+  Fixpoint apply_acts_pos (orig : list slot) (st j : nat) (acts : list act) (l : list slot) : list slot :=
+    match acts with
+    | [] => l
+    | a :: rest =>
+        let k := (st + j)%nat in
+        let l' := match a with
+                  | APutGlyph g => upd l k (fun s => set_gid_adv s g (adv g))
+                  | APutSubs ref incls outcls =>
+                      let q := (Z.of_nat j + ref)%Z in
+                      match (if (q <? 0)%Z then None else nth_error orig (Z.to_nat q)) with
+                      | None => l
+                      | Some s0 => let g := match index_of (s_gid s0) incls 0 with Some ix => nth ix outcls 0 | None => 0 end in
+                                   upd l k (fun s => set_gid_adv s g (adv g))
+                      end
+                  | ASetAdv v => upd l k (fun s => set_adv s v)
+                  | ASetShift v => upd l k (fun s => set_shx s v)
+                  | ASetShiftY v => upd l k (fun s => set_shy s v)
+                  | AAttPt x y => upd l k (fun s => set_att s x y)
+                  | AWithPt x y => upd l k (fun s => set_with s x y)
+                  | AAttach ref => let q := (Z.of_nat k + ref)%Z in if (q <? 0)%Z then l else attach l k (Z.to_nat q)
+                  | ADelete | AInsert _ => l                                                 (* the loader refuses them in positioning passes *)
+                  end in
+        apply_acts_pos orig st j rest l'
+    end.
+  Fixpoint apply_items_pos (orig : list slot) (st j : nat) (n : nat) (acts : list (list act)) (l : list slot) : list slot :=
+    match n with
+    | O => l
+    | S n' => let al := match acts with a :: _ => a | [] => [] end in
+              apply_items_pos orig st (S j) n' (match acts with _ :: ar => ar | [] => [] end) (apply_acts_pos orig st j al l)
+    end.
+  Definition fire_pos (r : rule) (l : list slot) (i : nat) : list slot * nat :=
+    let st := (i - r_pre r)%nat in
+    let window := firstn (r_sort r) (skipn st l) in
+    (apply_items_pos window st (r_pre r) (r_sort r - r_pre r) (r_acts r) l, (st + r_sort r)%nat).
+
   (* the pass: scan left to right; [fuel] bounds the number of steps *)
-  Fixpoint run_pass (fuel : nat) (rules : list rule) (l : list slot) (i : nat) : list slot :=
+  Fixpoint run_pass (positioning : bool) (fuel : nat) (rules : list rule) (l : list slot) (i : nat) : list slot :=
     match fuel with
     | O => l
     | S f =>
         if Nat.leb (length l) i then l
         else match select rules l i 0 None with
-             | Some (_, r) => let '(l', i') := fire r l i in run_pass f rules l' i'
-             | None => run_pass f rules l (S i)
+             | Some (_, r) => let '(l', i') := if positioning then fire_pos r l i else fire r l i in run_pass positioning f rules l' i'
+             | None => run_pass positioning f rules l (S i)
              end
     end.
 
   Definition pass_fuel (l : list slot) : nat := S (length l).
 
-  Fixpoint run_passes (passes : list (list rule)) (l : list slot) : list slot :=
+  (* passes in font order; the first [nsubst] are substitution passes, the rest positioning passes *)
+  Fixpoint run_passes_from (k nsubst : nat) (passes : list (list rule)) (l : list slot) : list slot :=
     match passes with
     | [] => l
-    | p :: rest => run_passes rest (run_pass (pass_fuel l) p l 0)
+    | p :: rest => run_passes_from (S k) nsubst rest (run_pass (Nat.leb nsubst k) (pass_fuel l) p l 0)
     end.
+  Definition run_passes (nsubst : nat) (passes : list (list rule)) (l : list slot) : list slot := run_passes_from 0 nsubst passes l.
 
   (* final positioning of an unattached stream, left to right: origin = running advance + shift *)
   Fixpoint origins (l : list slot) (cur : Z) : list Z :=
     match l with [] => [] | s :: r => (cur + s_shx s)%Z :: origins r (cur + s_adv s)%Z end.
+
+  (* final positioning in general: the attachment forest handed to the positioning model of C15 (Model/PosModel.v) *)
+  Definition sp_of (k : nat) (s : slot) : sp :=
+    mksp (N.of_nat k) (s_shx s) (s_shy s) (s_adv s) 0 (s_atx s - s_wx s)%Z (s_aty s - s_wy s)%Z (0 <? s_adv s)%Z.
+  Fixpoint build_chain (fuel : nat) (l : list slot) (kids : list nat) : bt :=
+    match fuel with
+    | O => Leaf
+    | S f => match kids with
+             | [] => Leaf
+             | k :: rest => match nth_error l k with
+                            | Some s => BNode (sp_of k s) (build_chain f l (s_kids s)) (build_chain f l rest)
+                            | None => Leaf
+                            end
+             end
+    end.
+  Fixpoint bases_from (l all : list slot) (k : nat) : list bt :=
+    match l with
+    | [] => []
+    | s :: r => match s_par s with
+                | None => BNode (sp_of k s) (build_chain 300 all (s_kids s)) Leaf :: bases_from r all (S k)
+                | Some _ => bases_from r all (S k)
+                end
+    end.
+  Definition positions (l : list slot) : V * plist := position_bases 1 (bases_from l l 0) (0, 0)%Z.
 End Pass.
